@@ -61,6 +61,19 @@ fn nobody_message(rng: &mut Rng, used: &[i64], done: &[i64]) -> Vec<u8> {
     ber::encode_min(&node)
 }
 
+/// Like `plan_response`, but a search whose base is marked `dc=pilot` gets a long item sequence
+/// so that it stays open while many other operations come and go.
+fn plan_for(rng: &mut Rng, id: i64, op: &crate::msg::Req) -> Plan {
+    if let crate::msg::Req::Search { base, .. } = op {
+        if base.ends_with(b"dc=pilot") {
+            let mut v: Plan = (0..40).map(|k| (Resp::Entry { dn: format!("e={}.{},dc=x", id, k).into_bytes(), attrs: vec![] }, None)).collect();
+            v.push((Resp::Done(Res::ok(&format!("t:{}:", id))), None));
+            return v;
+        }
+    }
+    plan_response(rng, id, op)
+}
+
 /// Multiplexing server: collects outstanding requests and answers them in a seeded random
 /// order, interleaving items of different searches, with random chunking.
 pub async fn mux_server(mut server: ServerEnd, mut rng: Rng, opts: MuxOpts) -> MuxLog {
@@ -73,7 +86,7 @@ pub async fn mux_server(mut server: ServerEnd, mut rng: Rng, opts: MuxOpts) -> M
         // absorb everything that is already there
         while let Some(w) = server.try_request() {
             if let Ok(m) = w.msg {
-                let plan = plan_response(&mut rng, m.id, &m.op);
+                let plan = plan_for(&mut rng, m.id, &m.op);
                 let tok = m.op.token_field().and_then(gen::token_of).unwrap_or(u64::MAX - m.id as u64);
                 let mut q = VecDeque::new();
                 for (k, (r, cs)) in plan.iter().enumerate() {
@@ -96,7 +109,7 @@ pub async fn mux_server(mut server: ServerEnd, mut rng: Rng, opts: MuxOpts) -> M
                 Some(w) => {
                     // put it back through the same path: re-run absorb by handling inline
                     if let Ok(m) = w.msg {
-                        let plan = plan_response(&mut rng, m.id, &m.op);
+                        let plan = plan_for(&mut rng, m.id, &m.op);
                         let tok = m.op.token_field().and_then(gen::token_of).unwrap_or(u64::MAX - m.id as u64);
                         let mut q = VecDeque::new();
                         for (k, (r, cs)) in plan.iter().enumerate() {
@@ -280,19 +293,40 @@ pub fn run_case_on(i: u64, rng: &mut Rng, rep: &mut Report, opts: MuxOpts, lane:
         programs.push(p);
     }
     let srng = rng.fork();
+    let near_wrap = rng.chance(1, 4);
+    let wrap_room = rng.below(8) as i32;
+    let pilot_token = i * 1000 + 999;
+    if near_wrap {
+        rep.count("cases_crossing_the_id_wrap_point", 1);
+        programs.insert(0, vec![ClientOp::Stream { token: pilot_token, base: format!("op={},dc=pilot", pilot_token) }]);
+    }
     let rt = if mt {
         let _ = rng.next();
         tokio::runtime::Builder::new_multi_thread().worker_threads(2 + rng.usize(3)).enable_time().build().expect("mt runtime")
     } else {
         runtime(rng.next())
     };
-    let progs = programs.clone();
+    let progs: Vec<Vec<ClientOp>> = programs.iter().skip(if near_wrap { 1 } else { 0 }).cloned().collect();
     let guarded_run = rt.block_on(async move {
         tokio::time::timeout(std::time::Duration::from_secs(if mt { 60 } else { 3600 * 48 }), async move {
         let c = connect();
         let gauges = c.ldap.verif_gauges();
         let srv = tokio::spawn(mux_server(c.server, srng, opts));
         let mut tasks = vec![];
+        if near_wrap {
+            // a long-lived "pilot" stream takes a low ID first; then the counter is positioned just
+            // below the wrap point, so that the other operations wrap around onto the low IDs while
+            // the pilot is still open
+            let mut l = c.ldap.clone();
+            let base = format!("op={},dc=pilot", pilot_token);
+            tasks.push(tokio::spawn(async move { vec![world::watchdog(run_stream(&mut l, &base)).await.unwrap_or(Outcome::Hung)] }));
+            if !mt {
+                world::settle().await;
+            } else {
+                tokio::time::sleep(std::time::Duration::from_millis(2)).await;
+            }
+            c.ldap.verif_set_last_id(i32::MAX - wrap_room);
+        }
         for p in progs {
             let mut l = c.ldap.clone();
             tasks.push(tokio::spawn(async move {
